@@ -71,6 +71,8 @@ FAMILIES = {
     "dip_atom": {"base": "2018_JCP_149_064113/dipoles/atom_factors.ini", "n": (2, 5), "cost": 1},
     "dip_atom_ff": {"base": "2018_JCP_149_064113/dipoles/atom_factors.ini", "n": (2, 5), "cost": 1,
                     "factor_swarm": True},
+    "dip_motion_ff": {"base": "2018_JCP_149_064113/dipoles/dipole_motion.ini", "n": (2, 4), "cost": 1,
+                      "factor_swarm": "motion"},
     "dip_in": {"base": "2018_JCP_149_064113/dipoles/dipole_factors_inside_first.ini", "n": (2, 5), "cost": 1},
     "dip_out": {"base": "2018_JCP_149_064113/dipoles/dipole_factors_outside_first.ini", "n": (2, 5), "cost": 1},
     "dip_ratio": {"base": "2018_JCP_149_064113/dipoles/dipole_factors_ratio.ini", "n": (2, 5), "cost": 1},
@@ -128,10 +130,16 @@ def generate(rng, family, package_dir, events=2000, vary=True, shipped_n=False):
             # the format does not require sorted index lists
             pairs = [p if rng.random() < 0.5 else "[%s, %s]" % (p[4], p[1]) for p in pairs]
         lines = ["[0, 1], Harmonic" if rng.random() < 0.7 else "[1, 0], Harmonic"]
-        for label in ("Repulsive", "Coulomb"):
+        labels = ("Repulsive", "Coulomb")
+        if spec["factor_swarm"] == "motion":
+            # dipole_motion.ini: pair factors only for the repulsion, the Coulomb factor couples two whole dipoles
+            labels = ("Repulsive",)
+        for label in labels:
             chosen = [p for p in pairs if rng.random() < 0.6] or [rng.choice(pairs)]
             rng.shuffle(chosen)
             lines.extend("%s, %s" % (p, label) for p in chosen)
+        if spec["factor_swarm"] == "motion":
+            lines.append("[0, 1, 2, 3], Coulomb")
         value = "@generated:" + ";".join(lines)
         sections["FactorTypeMaps"]["filename"] = value
         set_out.setdefault("FactorTypeMaps", {})["filename"] = value
